@@ -6,6 +6,7 @@ pub mod c07;
 pub mod ll;
 pub mod llrun;
 pub mod wf;
+pub mod xform;
 
 pub fn replay_fn(kind: &str) -> Result<fn(&Value) -> Outcome> {
     Ok(match kind {
@@ -14,6 +15,7 @@ pub fn replay_fn(kind: &str) -> Result<fn(&Value) -> Outcome> {
         "c06" => ll::replay_c06,
         "llrun" => llrun::replay,
         "c07" => c07::replay,
+        "xform" => xform::replay,
         _ => bail!("unknown replay kind {kind}"),
     })
 }
